@@ -46,6 +46,17 @@ def cond_fingerprint(node):
     return ast.dump(R().visit(copy.deepcopy(node)))
 
 
+def _top_foralls(t):
+    if z3.is_quantifier(t) and t.is_forall():
+        return [t]
+    if z3.is_and(t):
+        out = []
+        for c in t.children():
+            out.extend(_top_foralls(c))
+        return out
+    return []
+
+
 class ExprMixin:
     # ------------------------------------------------------------------
     # obligations
@@ -58,11 +69,31 @@ class ExprMixin:
         if self.spec_depth > 0 or self.in_contract:
             # inside specification code: no obligations, totality is the spec author's
             return
-        ob = Obligation(self.fn_name, kind, label, st.pc + st.facts, claim, st.trail,
+        ob = Obligation(self.fn_name, kind, label, st.pc + st.facts + self.instantiate_foralls(st), claim, st.trail,
                         carries=carries, info=info,
                         lineno=getattr(node, 'lineno', None))
         self.obls.append(ob)
         st.assume(claim)
+
+    def instantiate_foralls(self, st):
+        """Instances of the universally quantified assumptions (class / loop invariants over
+        container indices) at the integer locals of the current path: the sequence solvers
+        rarely find them by themselves.  Sound: instances of assumed formulas."""
+        cands = []
+        for name, v in st.env.items():
+            if isinstance(v, SV) and v.ty == TInt and not z3.is_int_value(v.t):
+                cands.append(v.t)
+        if not cands:
+            return ()
+        out = []
+        for t in st.pc:
+            for q in _top_foralls(t):
+                if q.num_vars() != 1 or q.var_sort(0) != z3.IntSort():
+                    continue
+                for c in cands[:6]:
+                    for inst in (c, c + 1, c - 1):
+                        out.append(z3.substitute_vars(q.body(), inst))
+        return tuple(out)
 
     def feasible(self, st, extra=None):
         """Cheap satisfiability check of the path condition (unknown = feasible)."""
@@ -83,6 +114,8 @@ class ExprMixin:
     # heap
     # ------------------------------------------------------------------
     def heap_array(self, st, fkey, ty):
+        if self.heap_reads is not None:
+            self.heap_reads.add(fkey)
         if fkey not in st.heap:
             st.heap[fkey] = z3.Const('H0_%s_%s' % (fkey[0].replace('.', '_').replace(':', '_'), fkey[1]),
                                      z3.ArraySort(z3.IntSort(), self.field_sort(ty)))
@@ -115,18 +148,18 @@ class ExprMixin:
     def assume_class(self, st, ref):
         st.assume(self.isinstance_term(st, ref, ref.ty.cls))
 
-    def cls_array(self, st):
-        if '$cls' not in st.heap:
-            st.heap['$cls'] = z3.Const('H0_cls', z3.ArraySort(z3.IntSort(), z3.IntSort()))
-        return st.heap['$cls']
+    def cls_of(self, ref_term):
+        """Dynamic class tag of an object: immutable, hence a global function of the
+        reference rather than part of the mutable heap."""
+        return strops.ufun('cls_of', z3.IntSort(), z3.IntSort())(ref_term)
 
     def isinstance_term(self, st, ref, cls):
         subs = self.classes.subclasses(cls)
-        tag = z3.Select(self.cls_array(st), ref.t)
+        tag = self.cls_of(ref.t)
         return z3.Or([tag == self.classes.cid(c) for c in subs])
 
     def exact_class_term(self, st, ref, cls):
-        return z3.Select(self.cls_array(st), ref.t) == self.classes.cid(cls)
+        return self.cls_of(ref.t) == self.classes.cid(cls)
 
     def write_field(self, st, ref, cls, name, val, node=None):
         dcls, fty = self.classes.field(cls, name)
@@ -169,10 +202,11 @@ class ExprMixin:
                     carries=self.frame_carries,
                     info={'claim': 'write to %s.%s only on an object in the modifies clause or allocated by this call' % fkey})
 
-    def new_object(self, st, cls, defaults=True):
+    def new_object(self, st, cls, defaults=True, tag=True):
         r = SV(TRef(cls), st.alloc)
         st.alloc = st.alloc + 1
-        st.heap['$cls'] = z3.Store(self.cls_array(st), r.t, z3.IntVal(self.classes.cid(cls)))
+        if tag:
+            st.assume(self.cls_of(r.t) == z3.IntVal(self.classes.cid(cls)))
         for q in (self.classes.mro(cls) if defaults else ()):
             m = api.MODELS.get(q)
             if m is None:
@@ -206,10 +240,15 @@ class ExprMixin:
         except TypeMismatch:
             if isinstance(sv.ty, TOpt) and not isinstance(ty, TOpt):
                 inner = unbox(sv.ty.inner, sv.ty.val(sv.t))
-                r = self.coerce(st, inner, ty)
+                r = self.coerce_checked(st, inner, ty, node, what)
                 self.oblige(st, z3.Not(sv.ty.is_none(sv.t)), 'safety', 'None-' + what, node=node,
                             info={'claim': '%s is not None where a %s is required' % (what, ty)})
                 return r
+            if isinstance(sv.ty, TRef) and isinstance(ty, TRef) and self.classes.is_subclass(ty.cls, sv.ty.cls):
+                # downcast: the object must really be an instance of the narrower class
+                self.oblige(st, self.isinstance_term(st, sv, ty.cls), 'safety', 'isinstance-' + what, node=node,
+                            info={'claim': '%s is an instance of %s' % (what, ty.cls)})
+                return SV(ty, sv.t)
             raise
 
     def list_elem(self, cls):
@@ -627,7 +666,10 @@ class ExprMixin:
             if isinstance(e.op, ast.Not):
                 out.append((s, SV(TBool, z3.Not(self.truthy(s, v)))))
             elif isinstance(e.op, ast.USub) and v.ty == TInt:
-                out.append((s, SV(TInt, -v.t)))
+                if z3.is_int_value(v.t):
+                    out.append((s, SV(TInt, z3.IntVal(-v.t.as_long()))))
+                else:
+                    out.append((s, SV(TInt, -v.t)))
             else:
                 raise OutsideSubset('unary op')
         return out
@@ -734,6 +776,9 @@ class ExprMixin:
             lt = coerce(lt, TInt)
         if rt.ty == TBool:
             rt = coerce(rt, TInt)
+        h = self.custom_compare(st, op, lt, rt, node)
+        if h is not None:
+            return h
         if lt.ty == TInt and rt.ty == TInt:
             return {ast.Lt: lambda: lt.t < rt.t, ast.LtE: lambda: lt.t <= rt.t,
                     ast.Gt: lambda: lt.t > rt.t, ast.GtE: lambda: lt.t >= rt.t}[type(op)]()
@@ -747,7 +792,27 @@ class ExprMixin:
         raise OutsideSubset('ordering on ' + str(lt.ty))
 
     def custom_compare(self, st, op, l, r, node):
-        return None
+        """maxOccurs: an int or info.Unbounded (= +infinity; UnboundedThing.__gt__/__eq__ with
+        functools.total_ordering)."""
+        def is_mo(v):
+            return isinstance(v.ty, TUnion) and v.ty.name == 'MaxOcc'
+        if not (is_mo(l) or is_mo(r)):
+            return None
+
+        def parts(v):
+            if is_mo(v):
+                return v.ty.is_tag('unb', v.t), v.ty.get('fin', v.t)
+            if v.ty == TInt:
+                return z3.BoolVal(False), v.t
+            return None
+        pl, pr = parts(l), parts(r)
+        if pl is None or pr is None:
+            return None
+        (li, lv), (ri, rv) = pl, pr
+        lt_ = z3.And(z3.Not(li), z3.Or(ri, lv < rv))
+        gt_ = z3.And(z3.Not(ri), z3.Or(li, lv > rv))
+        eq_ = z3.Or(z3.And(li, ri), z3.And(z3.Not(li), z3.Not(ri), lv == rv))
+        return {ast.Lt: lt_, ast.Gt: gt_, ast.LtE: z3.Or(lt_, eq_), ast.GtE: z3.Or(gt_, eq_)}[type(op)]
 
     def is_identical(self, st, l, r):
         if isinstance(l, Entity) or isinstance(r, Entity):
@@ -777,6 +842,9 @@ class ExprMixin:
         return z3.BoolVal(False)
 
     def py_eq(self, st, l, r):
+        for a, b in ((l, r), (r, l)):
+            if isinstance(a.ty, TUnion) and a.ty.name == 'MaxOcc' and b.ty == TInt:
+                return z3.And(a.ty.is_tag('fin', a.t), a.ty.get('fin', a.t) == b.t)
         if isinstance(l.ty, TRef) and isinstance(r.ty, TRef):
             c = self.classes.contract_for(l.ty.cls, '__eq__')
             if c is None:
@@ -867,6 +935,23 @@ class ExprMixin:
                     raise OutsideSubset('class attribute %s.%s' % (ty.cls, attr))
             if ty.cls.startswith('list:') or ty.cls.startswith('dict:') or ty.cls.startswith('rxmatch:'):
                 return Entity('method', attr, base)
+            # attribute of a subclass: implicit downcast with an AttributeError obligation
+            owners = []
+            for q in self.classes.subclasses(ty.cls):
+                dc, fty = self.classes.field(q, attr)
+                if dc is not None and dc not in owners:
+                    owners.append(dc)
+            if len(owners) == 1:
+                self.oblige(st, self.isinstance_term(st, base, owners[0]), 'safety', 'has-attr-' + attr, node=node,
+                            info={'claim': 'object is a %s, which has attribute %s (AttributeError)' % (owners[0], attr)})
+                return self.read_field(st, SV(TRef(owners[0]), base.t), owners[0], attr, node)
+            sub_methods = [q for q in self.classes.subclasses(ty.cls) if self.classes.find_method(q, attr)[1] is not None]
+            if sub_methods:
+                tops = [q for q in sub_methods if not any(q != o and self.classes.is_subclass(q, o) for o in sub_methods)]
+                if len(tops) == 1:
+                    self.oblige(st, self.isinstance_term(st, base, tops[0]), 'safety', 'has-method-' + attr, node=node,
+                                info={'claim': 'object is a %s, which has method %s (AttributeError)' % (tops[0], attr)})
+                    return Entity('method', attr, SV(TRef(tops[0]), base.t))
             raise OutsideSubset('no field or method %s on %s' % (attr, ty.cls))
         if ty == TStr or isinstance(ty, (TSeq, TMap, TTuple, TUnion)):
             return Entity('method', attr, base)
@@ -953,6 +1038,13 @@ class ExprMixin:
         raise OutsideSubset('slice of ' + str(base.ty))
 
     def do_index(self, st, base, idx, node):
+        strops.RAW_SYMBOLIC_INDEX[0] = bool(self.in_contract or self.spec_depth > 0)
+        try:
+            return self.do_index_(st, base, idx, node)
+        finally:
+            strops.RAW_SYMBOLIC_INDEX[0] = False
+
+    def do_index_(self, st, base, idx, node):
         base = self.unwrap_opt(st, self.need_value(base), node, 'subscript')
         idx = self.need_value(idx)
         ty = base.ty
